@@ -364,7 +364,7 @@ Proof. split; reflexivity. Qed.
 
 Lemma fseek_end (f : fobj) (off : Z) : off_min <= off <= off_max ->
   fseek f off os_SEEK_END =
-  if fsize f + off <? 0 then (f, OErr errno_EINVAL)
+  if fsize f + off <? 0 then (f, OErr (std_oserror errno_EINVAL))
   else (mk_fobj (f_data f) (fsize f + off), OOk (fsize f + off)).
 Proof.
   intros Hoff. unfold fseek.
@@ -395,7 +395,7 @@ Proof.
   unfold fsize, fopen. cbn [f_data f_pos].
   destruct (zlen data + - num <? 0) eqn:E.
   - (* num > size: seek fails with EINVAL, the handler goes to the start *)
-    rewrite Z.eqb_refl. rewrite fseek_set0. cbn [f_data].
+    cbn [os_errno std_oserror]. rewrite Z.eqb_refl. rewrite fseek_set0. cbn [f_data].
     rewrite tell_and_read_spec by lia.
     subst k. replace (Z.min num (zlen data)) with (zlen data) by lia.
     rewrite Z.sub_diag. reflexivity.
@@ -441,26 +441,28 @@ End LastBytes.
 Section Filters.
 Context {W H : Type} (rt : runtime W H).
 
-(* MAIN: for EVERY outcome of os.makedirs — in particular for every errno value e —
-   ensure_tree succeeds exactly when makedirs succeeded, or failed with EEXIST while the
-   path is a directory; every other error is re-raised unchanged (same errno / same
-   exception); the world is the one makedirs left. *)
+(* MAIN: for EVERY outcome of os.makedirs — in particular for every OSError instance e,
+   whatever its class (OSError, a builtin subclass, a user-defined subclass) and whatever its
+   errno — ensure_tree succeeds exactly when makedirs succeeded, or failed with
+   errno = EEXIST while the path is a directory; every other error is re-raised unchanged (the
+   same instance: same class, same errno); the world is the one makedirs left.  Only the errno
+   attribute is looked at. *)
 Theorem ensure_tree_errno_filter path mode w w1 r :
   rt_makedirs rt path mode w = (w1, r) ->
   (forall u, r = OOk u -> ensure_tree rt path mode w = (w1, OOk tt)) /\
-  (forall e, r = OErr e -> e = errno_EEXIST -> rt_isdir rt path w1 = true ->
+  (forall e, r = OErr e -> os_errno e = errno_EEXIST -> rt_isdir rt path w1 = true ->
              ensure_tree rt path mode w = (w1, OOk tt)) /\
-  (forall e, r = OErr e -> e = errno_EEXIST -> rt_isdir rt path w1 = false ->
+  (forall e, r = OErr e -> os_errno e = errno_EEXIST -> rt_isdir rt path w1 = false ->
              ensure_tree rt path mode w = (w1, OErr e)) /\
-  (forall e, r = OErr e -> e <> errno_EEXIST -> ensure_tree rt path mode w = (w1, OErr e)) /\
+  (forall e, r = OErr e -> os_errno e <> errno_EEXIST -> ensure_tree rt path mode w = (w1, OErr e)) /\
   (forall x, r = OExn x -> ensure_tree rt path mode w = (w1, OExn x)).
 Proof.
   intros Hmk. unfold ensure_tree. rewrite Hmk.
   split; [|split; [|split; [|split]]].
   - intros u ->. reflexivity.
-  - intros e -> -> Hd. rewrite Z.eqb_refl, Hd. reflexivity.
-  - intros e -> -> Hd. rewrite Z.eqb_refl, Hd. reflexivity.
-  - intros e -> Hne. replace (e =? errno_EEXIST) with false by (symmetry; apply Z.eqb_neq; exact Hne). reflexivity.
+  - intros e -> He Hd. rewrite He, Z.eqb_refl, Hd. reflexivity.
+  - intros e -> He Hd. rewrite He, Z.eqb_refl, Hd. reflexivity.
+  - intros e -> Hne. replace (os_errno e =? errno_EEXIST) with false by (symmetry; apply Z.eqb_neq; exact Hne). reflexivity.
   - intros x ->. reflexivity.
 Qed.
 
@@ -470,28 +472,43 @@ Corollary ensure_tree_outcome path mode w :
   let (w1, r) := rt_makedirs rt path mode w in
   (w1, match r with
        | OOk _ => OOk tt
-       | OErr e => if (e =? errno_EEXIST) && rt_isdir rt path w1 then OOk tt else OErr e
+       | OErr e => if (os_errno e =? errno_EEXIST) && rt_isdir rt path w1 then OOk tt else OErr e
        | OExn x => OExn x
        end).
 Proof. unfold ensure_tree. destruct (rt_makedirs rt path mode w) as [w1 [u|e|x]]; try reflexivity.
-  destruct ((e =? errno_EEXIST) && rt_isdir rt path w1); reflexivity. Qed.
+  destruct ((os_errno e =? errno_EEXIST) && rt_isdir rt path w1); reflexivity. Qed.
 
-(* MAIN: for EVERY outcome of the remove callable — every errno value e —
-   delete_if_exists succeeds exactly when remove succeeded or failed with ENOENT; every
-   other error is re-raised unchanged; remove is called once and nothing else happens. *)
+(* MAIN: for EVERY outcome of the remove callable — every OSError instance e of whatever class,
+   every errno — delete_if_exists succeeds exactly when remove succeeded or failed with
+   errno = ENOENT; every other error is re-raised unchanged; remove is called once and nothing
+   else happens.  Only the errno attribute is looked at. *)
 Theorem delete_if_exists_errno_filter (remove : bytes -> W -> W * ores unit) path w w1 r :
   remove path w = (w1, r) ->
   (forall u, r = OOk u -> delete_if_exists path remove w = (w1, OOk tt)) /\
-  (forall e, r = OErr e -> e = errno_ENOENT -> delete_if_exists path remove w = (w1, OOk tt)) /\
-  (forall e, r = OErr e -> e <> errno_ENOENT -> delete_if_exists path remove w = (w1, OErr e)) /\
+  (forall e, r = OErr e -> os_errno e = errno_ENOENT -> delete_if_exists path remove w = (w1, OOk tt)) /\
+  (forall e, r = OErr e -> os_errno e <> errno_ENOENT -> delete_if_exists path remove w = (w1, OErr e)) /\
   (forall x, r = OExn x -> delete_if_exists path remove w = (w1, OExn x)).
 Proof.
   intros Hrm. unfold delete_if_exists. rewrite Hrm.
   split; [|split; [|split]].
   - intros u ->. reflexivity.
-  - intros e -> ->. rewrite Z.eqb_refl. reflexivity.
-  - intros e -> Hne. replace (e =? errno_ENOENT) with false by (symmetry; apply Z.eqb_neq; exact Hne). reflexivity.
+  - intros e -> He. rewrite He, Z.eqb_refl. reflexivity.
+  - intros e -> Hne. replace (os_errno e =? errno_ENOENT) with false by (symmetry; apply Z.eqb_neq; exact Hne). reflexivity.
   - intros x ->. reflexivity.
+Qed.
+
+(* the class of the instance is irrelevant: two OSErrors with the same errno are filtered alike *)
+Corollary errno_filters_ignore_class (remove1 remove2 : bytes -> W -> W * ores unit) path mode w w1 (c1 c2 : bytes) (n : Z) :
+  (rt_makedirs rt path mode w = (w1, OErr (mk_oserror c1 n)) ->
+   ensure_tree rt path mode w = (w1, OOk tt) \/ ensure_tree rt path mode w = (w1, OErr (mk_oserror c1 n))) /\
+  (remove1 path w = (w1, OErr (mk_oserror c1 n)) -> remove2 path w = (w1, OErr (mk_oserror c2 n)) ->
+   (delete_if_exists path remove1 w = (w1, OOk tt) <-> delete_if_exists path remove2 w = (w1, OOk tt))).
+Proof.
+  split.
+  - intros Hmk. unfold ensure_tree. rewrite Hmk. cbn [os_errno].
+    destruct ((n =? errno_EEXIST) && rt_isdir rt path w1); [left|right]; reflexivity.
+  - intros H1 H2. unfold delete_if_exists. rewrite H1, H2. cbn [os_errno].
+    destruct (n =? errno_ENOENT); split; intros Heq; try reflexivity; discriminate Heq.
 Qed.
 
 End Filters.
@@ -517,14 +534,15 @@ Record fs_contract : Prop := {
   makedirs_keeps : forall p m w w' r, rt_makedirs rt p m w = (w', r) ->
       forall k n, look k w = Some n -> look k w' = Some n;
   (* ... and on something that exists (file or directory) it fails with EEXIST, changing nothing *)
-  makedirs_exists : forall p m w n, look (key p) w = Some n -> rt_makedirs rt p m w = (w, OErr errno_EEXIST);
+  makedirs_exists : forall p m w n, look (key p) w = Some n ->
+      exists e, rt_makedirs rt p m w = (w, OErr e) /\ os_errno e = errno_EEXIST;
   (* unlink: on success the path is gone, nothing else changed, and a second unlink
      reports ENOENT; a failed unlink changes nothing; ENOENT means there was nothing *)
   unlink_ok : forall p w w', rt_unlink rt p w = (w', OOk tt) ->
       look (key p) w' = None /\ (forall k, k <> key p -> look k w' = look k w) /\
-      rt_unlink rt p w' = (w', OErr errno_ENOENT);
+      (exists e, rt_unlink rt p w' = (w', OErr e) /\ os_errno e = errno_ENOENT);
   unlink_err : forall p w w' e, rt_unlink rt p w = (w', OErr e) -> w' = w;
-  unlink_enoent : forall p w w', rt_unlink rt p w = (w', OErr errno_ENOENT) -> look (key p) w = None;
+  unlink_enoent : forall p w w' e, rt_unlink rt p w = (w', OErr e) -> os_errno e = errno_ENOENT -> look (key p) w = None;
   (* mkstemp: a name that did not exist, now an empty regular file, open on the returned
      descriptor, inside the requested directory, with the requested prefix and suffix *)
   mkstemp_ok : forall s d pre w w' fd p, rt_mkstemp rt s d pre w = (w', OOk (fd, p)) ->
@@ -550,16 +568,17 @@ Hypothesis HC : fs_contract.
 Theorem ensure_tree_already_done path mode w :
   look (key path) w = Some NDir -> ensure_tree rt path mode w = (w, OOk tt).
 Proof.
-  intros Hd. unfold ensure_tree. rewrite (makedirs_exists HC path mode w NDir Hd).
-  rewrite Z.eqb_refl. replace (rt_isdir rt path w) with true by (symmetry; apply (isdir_look HC); exact Hd).
+  intros Hd. unfold ensure_tree. destruct (makedirs_exists HC path mode w NDir Hd) as [e [Hmk He]].
+  rewrite Hmk, He, Z.eqb_refl. replace (rt_isdir rt path w) with true by (symmetry; apply (isdir_look HC); exact Hd).
   reflexivity.
 Qed.
 
 Theorem ensure_tree_file_in_the_way path mode w c :
-  look (key path) w = Some (NFile c) -> ensure_tree rt path mode w = (w, OErr errno_EEXIST).
+  look (key path) w = Some (NFile c) ->
+  exists e, ensure_tree rt path mode w = (w, OErr e) /\ os_errno e = errno_EEXIST.
 Proof.
-  intros Hf. unfold ensure_tree. rewrite (makedirs_exists HC path mode w (NFile c) Hf).
-  rewrite Z.eqb_refl.
+  intros Hf. unfold ensure_tree. destruct (makedirs_exists HC path mode w (NFile c) Hf) as [e [Hmk He]].
+  exists e. split; [|exact He]. rewrite Hmk, He, Z.eqb_refl.
   destruct (rt_isdir rt path w) eqn:Ed; [|reflexivity].
   apply (isdir_look HC) in Ed. congruence.
 Qed.
@@ -572,7 +591,7 @@ Proof.
   pose proof (makedirs_keeps HC path mode w w1 r Hmk) as Hkeep.
   destruct r as [u|e|x].
   - intros Heq. injection Heq as <-. destruct u. split; [apply (makedirs_ok HC _ _ _ _ Hmk)|exact Hkeep].
-  - destruct ((e =? errno_EEXIST) && rt_isdir rt path w1) eqn:Ec; intros Heq; [|discriminate].
+  - destruct ((os_errno e =? errno_EEXIST) && rt_isdir rt path w1) eqn:Ec; intros Heq; [|discriminate].
     injection Heq as <-. apply andb_true_iff in Ec. destruct Ec as [_ Ed].
     split; [apply (isdir_look HC); exact Ed|exact Hkeep].
   - intros Heq. discriminate.
@@ -600,10 +619,10 @@ Proof.
   destruct r as [u|e|x].
   - intros Heq. injection Heq as <-. destruct u.
     destruct (unlink_ok HC _ _ _ Hrm) as [Hgone [Hframe _]]. split; assumption.
-  - destruct (e =? errno_ENOENT) eqn:Ee; intros Heq; [|discriminate].
-    injection Heq as <-. apply Z.eqb_eq in Ee. subst e.
+  - destruct (os_errno e =? errno_ENOENT) eqn:Ee; intros Heq; [|discriminate].
+    injection Heq as <-. apply Z.eqb_eq in Ee.
     pose proof (unlink_err HC _ _ _ _ Hrm) as ->.
-    split; [apply (unlink_enoent HC _ _ _ Hrm)|reflexivity].
+    split; [apply (unlink_enoent HC _ _ _ _ Hrm Ee)|reflexivity].
   - intros Heq. discriminate.
 Qed.
 
@@ -614,9 +633,9 @@ Proof.
   unfold delete_if_exists at 1. destruct (rt_unlink rt path w) as [w1 r] eqn:Hrm.
   destruct r as [u|e|x].
   - intros Heq. injection Heq as <-. destruct u.
-    destruct (unlink_ok HC _ _ _ Hrm) as [_ [_ Hagain]].
-    unfold delete_if_exists. rewrite Hagain, Z.eqb_refl. reflexivity.
-  - destruct (e =? errno_ENOENT) eqn:Ee; intros Heq; [|discriminate].
+    destruct (unlink_ok HC _ _ _ Hrm) as [_ [_ [e2 [Hagain He2]]]].
+    unfold delete_if_exists. rewrite Hagain, He2, Z.eqb_refl. reflexivity.
+  - destruct (os_errno e =? errno_ENOENT) eqn:Ee; intros Heq; [|discriminate].
     injection Heq as <-.
     pose proof (unlink_err HC _ _ _ _ Hrm) as ->.
     unfold delete_if_exists. rewrite Hrm, Ee. reflexivity.
